@@ -7,11 +7,11 @@ import importlib
 RULES = {
     "C01": [("sa.rules.b6", "r_C19a_C01"), ("sa.rules.c01", "r_C01ef")],
     "C02": [("sa.rules.b6", "r_C02ab"), ("sa.rules.b3", "r_C02cd"), ("sa.rules.b3", "r_C08_C34"), ("sa.rules.c08", "r_C08bc"), ("sa.rules.c01", "r_C01ef")],
-    "C03": [("sa.rules.b1", "r_C03a"), ("sa.rules.b6", "r_C03bc"), ("sa.rules.b3", "r_C03de_C11a_C17bc")],
+    "C03": [("sa.rules.b1", "r_C03a"), ("sa.rules.b6", "r_C03bc"), ("sa.rules.b3", "r_C03de_C11a_C17bc"), ("sa.rules.c03", "r_C03fgh")],
     "C04": [("sa.rules.b2", "r_C04"), ("sa.rules.c04", "r_C04a"), ("sa.rules.c01", "r_C01ef")],
     "C05": [("sa.rules.b3", "r_C05_C10")],
     "C06": [("sa.rules.b7", "r_origin")],
-    "C07": [("sa.rules.b3", "r_C07")],
+    "C07": [("sa.rules.b3", "r_C07"), ("sa.rules.b6", "r_C03bc"), ("sa.rules.c03", "r_C03fgh")],
     "C08": [("sa.rules.b3", "r_C08_C34"), ("sa.rules.b3", "r_C02cd"), ("sa.rules.c08", "r_C08bc")],
     "C09": [("sa.rules.b3", "r_C09")],
     "C10": [("sa.rules.b3", "r_C05_C10")],
@@ -45,6 +45,8 @@ RULES = {
 ALSO = {
     # reference lists are attribute values too: the order clauses of C08 are clauses of C02 ("never reorder matched values")
     "C02": {"C08": ("C08.a", "C08.b", "C08.c"), "C01": ("C01.e",)},
+    # "matching object of the right type": the conformance test textx_isinstance is part of C07's selector
+    "C07": {"C03": ("C03.c", "C03.d", "C03.h")},
     # base type conversion: with use_regexp_group the converted text is decided by C01.g
     "C04": {"C01": ("C01.g",)},
     # C01.c (rule modifiers on an expression that ignores them) is the whitespace clause of C22 as well
